@@ -19,14 +19,19 @@ type chanState struct {
 	closed       bool
 	foreign      []*waiter // parked receivers on a channel closed by uninstrumented code (ctx.Done)
 	poll         func() bool
+	keep         any // the channel itself (see st)
 }
 
 func chanID(ch any) uintptr { return reflect.ValueOf(ch).Pointer() }
 
-func (s *Sched) st(id uintptr) *chanState {
+// st returns the shim state of a channel. The state is keyed by the channel's address, so it keeps the channel alive for
+// the rest of the execution: a collected channel's address could otherwise be given to a new channel, which would inherit
+// the old one's state ("closed").
+func (s *Sched) st(ch any) *chanState {
+	id := chanID(ch)
 	c := s.chans[id]
 	if c == nil {
-		c = &chanState{}
+		c = &chanState{keep: ch}
 		s.chans[id] = c
 	}
 	return c
@@ -112,7 +117,7 @@ func (c *RecvCase[T]) canFire(s *Sched) bool {
 	if c.ch == nil {
 		return false
 	}
-	st := s.st(chanID(c.ch))
+	st := s.st(c.ch)
 	if len(c.ch) > 0 || st.closed {
 		return true
 	}
@@ -132,7 +137,7 @@ func (c *RecvCase[T]) tryFire(s *Sched) bool {
 	if !c.canFire(s) {
 		return false
 	}
-	st := s.st(chanID(c.ch))
+	st := s.st(c.ch)
 	if len(c.ch) > 0 {
 		c.v, c.ok = <-c.ch, true
 		if w := firstLive(&st.sendq); w != nil { // a parked sender refills the buffer
@@ -155,7 +160,7 @@ func (c *RecvCase[T]) park(s *Sched, w *waiter) {
 	if c.ch == nil {
 		return
 	}
-	st := s.st(chanID(c.ch))
+	st := s.st(c.ch)
 	if st.poll == nil {
 		st.poll = c.pollClosed
 	}
@@ -180,7 +185,7 @@ func (c *SendCase[T]) tryFire(s *Sched) bool {
 	if c.ch == nil {
 		return false
 	}
-	st := s.st(chanID(c.ch))
+	st := s.st(c.ch)
 	if st.closed {
 		panic("send on closed channel")
 	}
@@ -196,7 +201,7 @@ func (c *SendCase[T]) tryFire(s *Sched) bool {
 }
 
 func (c *SendCase[T]) park(s *Sched, w *waiter) {
-	st := s.st(chanID(c.ch))
+	st := s.st(c.ch)
 	w.val = c.v
 	w.push = func() { c.ch <- c.v }
 	st.sendq = append(st.sendq, w)
@@ -255,7 +260,7 @@ func (c *SendCase[T]) canSend(s *Sched) bool {
 	if c.ch == nil {
 		return false
 	}
-	st := s.st(chanID(c.ch))
+	st := s.st(c.ch)
 	if st.closed {
 		return true
 	}
@@ -306,7 +311,7 @@ func Close[T any](ch chan<- T) {
 		return
 	}
 	Point()
-	st := S.st(chanID(ch))
+	st := S.st(ch)
 	if st.closed {
 		panic("close of closed channel")
 	}
